@@ -300,9 +300,10 @@ func (b *Batcher) trySendBatchAndUnlock(batch *Batch) {
 	batch.seq = b.outSeq
 	b.outSeq++
 	b.batch = nil
-	b.mu.Unlock()
 
+	// hand the batch over before releasing mu: Stop closes fullBatches under the same lock
 	b.fullBatches <- batch
+	b.mu.Unlock()
 }
 
 func (b *Batcher) getBatch() *Batch {
